@@ -61,6 +61,9 @@ func allProps(k *Contract) []string {
 	for _, p := range k.Safety {
 		set[p] = true
 	}
+	for _, p := range k.Blocking {
+		set[p] = true
+	}
 	var out []string
 	for p := range set {
 		out = append(out, p)
@@ -80,6 +83,7 @@ func VerifyFunc(p *Program, key string, fn *ssa.Function, k *Contract) *FuncResu
 	e.rootC = k
 	e.rootKey = key
 	e.safety = k.Safety
+	e.blocking = k.Blocking
 	c := e.c
 	e.entry = NewState()
 	fr := e.newFrame(fn, nil)
